@@ -177,22 +177,25 @@ class MemoryPoolList {
   }
 
   Pool* addPool(Allocator* allocator) {
+    if (count_ >= maxPools)  // every slot id below NULL_SLOT is already taken
+      return nullptr;
     if (count_ == capacity_ && !increaseCapacity(allocator))
       return nullptr;
     auto pool = &pools_[count_++];
     SlotCount poolCapacity = ARDUINOJSON_POOL_CAPACITY;
     if (count_ == maxPools)  // last pool is smaller because of NULL_SLOT
-      poolCapacity--;
+      poolCapacity = lastPoolCapacity;
     pool->create(poolCapacity, allocator);
     ARDUINOJSON_VERIF_EVENT(3, this, count_, poolCapacity);
     return pool;
   }
 
   bool increaseCapacity(Allocator* allocator) {
-    if (capacity_ == maxPools)
+    if (capacity_ >= maxPools)
       return false;
     void* newPools;
-    auto newCapacity = PoolCount(capacity_ * 2);
+    auto newCapacity = capacity_ > maxPools / 2 ? maxPools
+                                                : PoolCount(capacity_ * 2);
 
     if (pools_ == preallocatedPools_) {
       newPools = allocator->allocate(newCapacity * sizeof(Pool));
@@ -218,8 +221,13 @@ class MemoryPoolList {
   SlotId freeList_ = NULL_SLOT;
 
  public:
+  // Slot ids range from 0 to NULL_SLOT-1, so the pools must not offer more
+  // than NULL_SLOT slots in total, whatever the pool capacity.
   static const PoolCount maxPools =
-      PoolCount(NULL_SLOT / ARDUINOJSON_POOL_CAPACITY + 1);
+      PoolCount(NULL_SLOT / ARDUINOJSON_POOL_CAPACITY +
+                (NULL_SLOT % ARDUINOJSON_POOL_CAPACITY != 0));
+  static const SlotCount lastPoolCapacity =
+      SlotCount(NULL_SLOT - (maxPools - 1) * ARDUINOJSON_POOL_CAPACITY);
 };
 
 ARDUINOJSON_END_PRIVATE_NAMESPACE
